@@ -21,7 +21,7 @@ func main() {
 	in := flag.String("cases", "", "cases file (one JSON case per line)")
 	out := flag.String("out", "lab.ndjson", "output trace")
 	worker := flag.Bool("worker", false, "internal: process cases from stdin")
-	perCase := flag.Duration("timeout", 5*time.Second, "time allowed per case")
+	perCase := flag.Duration("timeout", 15*time.Second, "time allowed per case")
 	flag.Parse()
 	if *worker {
 		runWorker()
